@@ -300,12 +300,12 @@ RECIPES["C09"] = {
          "defs": {"quick": {"LSTR": 2, "LADDR": 3}, "thorough": {"LSTR": 5, "LADDR": 15}},
          "splits": {"all": _fmt_job_splits()},
          "unwind": 210, "unwindset": ["vpm_num.0:22", "vpm_num.1:24", "vpm_num.2:24", "vpm_num.3:24"],
-         "timeout": 600},
+         "flags": ["--sat-solver", "cadical"], "timeout": 600},
         {"name": "fmt_long", "src": ["C09_fmt.c"] + IAUTH, "gen": _gen_formats.gen,
          "defs": {"all": {"LSTR": 2, "LADDR": 3, "LONG": None}},
          "splits": {"all": [{"_name": "k", "VP_WHICH": "FMT_INDEX_KILL"}, {"_name": "X", "VP_WHICH": "FMT_INDEX_XQUERY"}]},
          "unwind": 2300, "unwindset": ["vpm_num.0:22", "vpm_num.1:24", "vpm_num.2:24", "vpm_num.3:24"],
-         "timeout": 900},
+         "flags": ["--sat-solver", "cadical"], "timeout": 900},
     ],
 }
 
@@ -353,3 +353,74 @@ RECIPES["C11"] = {
          "fp_restrict": FP_IAUTH, "flags": ["--sat-solver", "cadical"], "timeout": 900},
     ],
 }
+
+import gen_shim as _gen_shim
+
+_HOOKS = ["hook_0", "hook_1", "hook_2", "hook_3", "hook_4", "hook_5", "iauth_xquery_services_changed", "iauth_class_conf_changed",
+          "log_rescan_conf", "log_rescan_type"]
+FP_CONFIG = {
+    "set_splay.function_pointer_call.1": _CMPS, "set_splay.function_pointer_call.2": _CMPS, "set_splay.function_pointer_call.3": _CMPS,
+    "set_dispose_node.function_pointer_call.1": ["conf_object_cleanup", "iauth_req_cleanup", "log_type_cleanup", "log_destination_cleanup"],
+    "conf_parse_string_value.function_pointer_call.1": _HOOKS, "conf_parse_string_value.function_pointer_call.2": _HOOKS,
+    "conf_parse_string_value.function_pointer_call.3": _HOOKS,
+    "conf_set_string_list_value.function_pointer_call.1": _HOOKS,
+    "conf_replace_value.function_pointer_call.1": _HOOKS, "conf_replace_value.function_pointer_call.2": _HOOKS,
+    "conf_update_node.function_pointer_call.1": _HOOKS,
+}
+FP_CONFIG.update({k: v for k, v in FP_IAUTH.items() if k not in FP_CONFIG})
+CONFIG_TU = ["repo:src/set.c", "repo:src/common.c", "repo:src/bitset.c", "env/config_env.c", "env/core_env.c", "env/libc_models.c"]
+CONFIG_UW = ["set_splay.0:5", "set_first.0:5", "set_clear.0:5", "conf_replace_value:3", "conf_object_cleanup:3", "set_clear:3",
+             "set_dispose_node:3", "set_insert:2", "set_remove:3", "conf_replace_value.0:6", "conf_replace_value.1:6",
+             "strcasecmp.0:4", "strcmp.0:4", "strlen.0:4", "strdup.0:4", "free_addrinfo.0:1", "copy_addrinfo:1",
+             "string_vector_clear_int.0:4", "conf_set_string_list_value.0:4", "conf_set_string_list_value.1:4", "conf_set_string_list_value.2:4",
+             "string_vector_copy.0:4", "string_vector_copy.1:4"]
+
+def _merge_scen(thorough):
+    """(file1 presence, file2 presence, registration) scenarios for the object-level merge.
+    Presence bits: a=1 b=2 l=4 i=8 o=16 o/a=32.  Registration: 2 bits per node (0 never,
+    1 before the first load, 2 between the loads)."""
+    def reg(**kw):
+        idx = {"a": 0, "b": 1, "l": 2, "i": 3, "o": 4, "oa": 5}
+        v = 0
+        for k, w in kw.items():
+            v |= w << (2 * idx[k])
+        return v
+    sc = [
+        ("splice_revert", 0x01 | 0x02, 0x02 | 0x10 | 0x20, reg(a=1)),            # a removed (registered), o{a} appears, b stays
+        ("obj_inplace", 0x10 | 0x20 | 0x01, 0x10 | 0x20 | 0x01, reg(o=1, oa=1)),   # same membership, values may change in place
+        ("obj_gone", 0x10 | 0x20 | 0x02, 0x02, reg(b=2)),                           # unregistered object disappears with its child
+        ("reg_after", 0x01 | 0x10 | 0x20, 0x01 | 0x10, reg(a=2, o=2, oa=2)),       # registered after a file created the nodes
+        ("empty_then_full", 0, 0x01 | 0x02 | 0x10 | 0x20, reg(a=1, o=1)),
+        ("full_then_empty", 0x01 | 0x02 | 0x10 | 0x20, 0, reg(a=1, o=1, oa=1)),
+    ]
+    if thorough:
+        sc += [
+            ("list_inaddr", 0x01 | 0x04 | 0x08, 0x04 | 0x08 | 0x02, reg(l=1, i=1)),
+            ("list_inaddr_gone", 0x04 | 0x08, 0, reg(l=1)),
+            ("all_same", 0x3f, 0x3f, reg(a=1, b=2, l=1, i=1, o=1, oa=2)),
+        ]
+    out = []
+    for name, p0, p1, r in sc:
+        d = {"_name": name, "VP_P0": hex(p0), "VP_P1": hex(p1), "VP_REG": hex(r), "WITH_B": None, "WITH_OBJ": None}
+        if (p0 | p1) & 0x04:
+            d["WITH_LIST"] = None
+        if (p0 | p1) & 0x08:
+            d["WITH_INADDR"] = None
+        out.append(d)
+    return out
+
+
+RECIPES["C15"] = {
+    "units": ["src/config.c", "src/set.c", "src/common.c"],
+    "jobs": [
+        {"name": "merge", "src": ["C15_merge.c"] + CONFIG_TU, "gen": _gen_shim.gen,
+         "splits": {"quick": _merge_scen(False), "thorough": _merge_scen(True)},
+         "unwind": 8, "unwindset": CONFIG_UW, "fp_restrict": FP_CONFIG, "timeout": 900},
+    ],
+}
+
+RECIPES["C15"]["jobs"].insert(0,
+    {"name": "node", "src": ["C15_node.c"] + CONFIG_TU, "gen": _gen_shim.gen,
+     "splits": {"all": [{"_name": "%s_r%d%d%d" % (k[2:].lower(), r, a, b), k: None, "REG": r, "IN0": a, "IN1": b}
+                        for k in ("K_STRING", "K_INADDR", "K_LIST") for r in (0, 1) for a in (0, 1) for b in (0, 1)]},
+     "unwind": 6, "unwindset": CONFIG_UW, "fp_restrict": FP_CONFIG, "timeout": 900})
